@@ -62,7 +62,7 @@ func (S) Info() scen.Info {
 			"goroutine scheduling": "stub: seeded one-at-a-time scheduler; yields between operations, between reader chunks, inside visitor and transform callbacks",
 		},
 		QuickUnits: 50000, ThoroughUnits: 3000000, QuickSecs: 240, ThoroughSecs: 1200,
-		ProbeKeys: []string{"probe.reset_producer", "probe.assign_then_reset", "probe.copy_and_extend", "probe.largebytes_interleaved", "probe.two_readers_same_node", "probe.subset_match_bytes", "probe.subset_match_string", "probe.focused_transform", "probe.walk_transform", "probe.abandoned_builder", "probe.typed_node_in_pool", "probe.stream_bytes_node", "probe.callback_interleaved", "probe.loaded_node_in_pool", "probe.load_while_holding_loaded_nodes", "probe.iterator_nodes_retained", "probe.lookup_result_retained", "probe.extended_after_assign", "probe.stream_reader_unusual_but_legal", "probe.stream_read_fault_fired", "probe.assign_into_specific_generic_builder", "probe.vocabulary_node_in_pool", "probe.stale_assembler_handles_used"},
+		ProbeKeys: []string{"probe.type_system_merged_elsewhere", "probe.exhausted_iterator_asked_again", "probe.reset_producer", "probe.assign_then_reset", "probe.copy_and_extend", "probe.largebytes_interleaved", "probe.two_readers_same_node", "probe.subset_match_bytes", "probe.subset_match_string", "probe.focused_transform", "probe.walk_transform", "probe.abandoned_builder", "probe.typed_node_in_pool", "probe.stream_bytes_node", "probe.callback_interleaved", "probe.loaded_node_in_pool", "probe.load_while_holding_loaded_nodes", "probe.iterator_nodes_retained", "probe.lookup_result_retained", "probe.extended_after_assign", "probe.stream_reader_unusual_but_legal", "probe.stream_read_fault_fired", "probe.assign_into_specific_generic_builder", "probe.vocabulary_node_in_pool", "probe.stale_assembler_handles_used"},
 		EventsKey: "events",
 	}
 }
@@ -96,7 +96,9 @@ type world struct {
 	share   bool
 	cids    []string
 	extN    int
-	extKeys []string // keys that were only ever added to extended copies: no other node may know them
+	extKeys []string                 // keys that were only ever added to extended copies: no other node may know them
+	deadL   []datamodel.ListIterator // iterators that have reported Done, kept by their callers
+	deadM   []datamodel.MapIterator
 }
 
 type TMap struct {
@@ -310,7 +312,7 @@ func (S) RunTape(t *sim.Tape, st *sim.Stats, keepLog bool) *sim.Outcome {
 	total := 0
 	for h := 0; h < nh; h++ {
 		for total < 80 && len(plans[h]) < 30 && t.Begin("step", 92) {
-			plans[h] = append(plans[h], step{t.Choice(23, "op"), t.Choice(64, "a"), t.Choice(64, "b"), t.Choice(64, "c")})
+			plans[h] = append(plans[h], step{t.Choice(25, "op"), t.Choice(64, "a"), t.Choice(64, "b"), t.Choice(64, "c")})
 			total++
 			t.End()
 		}
@@ -963,6 +965,102 @@ func (w *world) step(h int, rd *reader, op, a, b, c int) string {
 		w.share = true
 		w.st.Inc("probe.iterator_nodes_retained")
 		return fmt.Sprintf("retain-iterator-nodes(%s#%d)", e.origin, i)
+	case 23: // the type systems typed nodes belong to are merged into another one, which defines their names differently (or not at all)
+		for k, src := range []*schema.TypeSystem{w.ts, w.vts} {
+			if src == nil {
+				continue
+			}
+			target := new(schema.TypeSystem)
+			target.Init()
+			if (c>>uint(k))&1 == 0 {
+				for _, name := range src.Names() {
+					if _, isStruct := src.TypeByName(name).(*schema.TypeStruct); isStruct {
+						target.Accumulate(schema.SpawnString(name))
+					} else {
+						target.Accumulate(schema.SpawnStruct(name, []schema.StructField{schema.SpawnStructField("zz", "Bool", false, false)}, schema.SpawnStructRepresentationMap(nil)))
+					}
+				}
+			}
+			safe(func() { schema.MergeTypeSystem(target, src, true) })
+		}
+		w.st.Inc("probe.type_system_merged_elsewhere")
+		return "merge-type-systems-into-another"
+	case 24: // an iterator run to its end is kept; after other iterations have begun it is asked again
+		if e.snap.K != model.Map && e.snap.K != model.List {
+			return "dead-iterator-skip"
+		}
+		sig := e.origin + " iterator"
+		pan := safe(func() {
+			if e.snap.K == model.List {
+				it := e.n.ListIterator()
+				for !it.Done() {
+					if _, _, err := it.Next(); err != nil {
+						return
+					}
+				}
+				if len(w.deadL) < 8 {
+					w.deadL = append(w.deadL, it)
+				}
+				fresh := e.n.ListIterator()
+				for _, d := range w.deadL {
+					if !d.Done() {
+						w.o.Fail("exhausted-iterator-revived", sig, "a list iterator that had reported Done answers Done()=false after later iterators were created")
+						return
+					}
+					if _, v, err := d.Next(); err == nil && v != nil {
+						w.o.Fail("exhausted-iterator-revived", sig, "Next() of a list iterator that had reported Done handed out an element after later iterators were created")
+						return
+					}
+				}
+				n := 0
+				for !fresh.Done() {
+					if _, _, err := fresh.Next(); err != nil {
+						break
+					}
+					n++
+				}
+				if n != len(e.snap.Vals) {
+					w.o.Fail("node-changed", sig, "a fresh iteration of pool node #%d (from %s) yields %d of its %d elements after exhausted iterators of other nodes were asked again", i, e.origin, n, len(e.snap.Vals))
+				}
+			} else {
+				it := e.n.MapIterator()
+				for !it.Done() {
+					if _, _, err := it.Next(); err != nil {
+						return
+					}
+				}
+				if len(w.deadM) < 8 {
+					w.deadM = append(w.deadM, it)
+				}
+				fresh := e.n.MapIterator()
+				for _, d := range w.deadM {
+					if !d.Done() {
+						w.o.Fail("exhausted-iterator-revived", sig, "a map iterator that had reported Done answers Done()=false after later iterators were created")
+						return
+					}
+					if k, _, err := d.Next(); err == nil && k != nil {
+						w.o.Fail("exhausted-iterator-revived", sig, "Next() of a map iterator that had reported Done handed out an entry after later iterators were created")
+						return
+					}
+				}
+				n := 0
+				for !fresh.Done() {
+					_, v, err := fresh.Next()
+					if err != nil {
+						break
+					}
+					if !v.IsAbsent() {
+						n++
+					}
+				}
+				if n != len(e.snap.Vals) {
+					w.o.Fail("node-changed", sig, "a fresh iteration of pool node #%d (from %s) yields %d of its %d entries after exhausted iterators of other nodes were asked again", i, e.origin, n, len(e.snap.Vals))
+				}
+			}
+		})
+		_ = pan
+		w.st.Inc("probe.exhausted_iterator_asked_again")
+		return fmt.Sprintf("ask-exhausted-iterators-again(%s#%d)", e.origin, i)
 	case 21, 22: // assembler handles kept past Finish / Build are used again: whatever they answer, the built node stays as it is
 		var np datamodel.NodePrototype = basicnode.Prototype.Any
 		if c&1 != 0 {
